@@ -36,6 +36,7 @@ def required_cells(tier):
             "subdiv:None": 3, "prefix": 5, "ladder": 2, "trace": 3,
             "start!=0": 3, "tau:set": 2, "K:set": 5,
             "pt-inspected-before-use": 5,
+            "initial-matrix:non-hermitian": 3,
             "pt-route:file": 1, "pt-route:auto-file": 1,
             "pt-route:file+reopen-simple": 1, "pt-route:reimport-file": 1,
             "pt-route&non-diagonal-coupling": 4,
@@ -185,6 +186,12 @@ def run_case(case):
     params = _params(g)
     nsteps, dt, start = g["nsteps"], g["dt"], g["start"]
     violations, cells, monitors = [], [], {}
+    if i % 8 == 5:
+        # a general (non-Hermitian) initial matrix, e.g. A rho0 as used for
+        # correlation functions: both methods are linear maps and must agree
+        r0 = gen.cplx(g["rng"], (g["d"], g["d"]), 0.5)
+        g["rho0"] = r0 / np.trace(r0)
+        cells.append("initial-matrix:non-hermitian")
     probe_a.log.clear()      # drop the constructors' own probing calls
     probe_b.log.clear()
     dyn_t = _tempo(g, g["sys_a"], params)
